@@ -3,6 +3,9 @@ An oracle with a fifth parameter `mobs` also receives the protocol model's obser
 import ncommon
 
 
+PLACEHOLDER = 4294967295
+
+
 def text_of(g):
     return int(g) % ncommon.NTEXTS
 
@@ -13,6 +16,15 @@ def walk(line, obs):
     for k, (ev, ob) in enumerate(zip(line.split(";"), obs)):
         tr.event(ev, ob)
         yield k, ev, ob, tr
+
+
+# events that step the UI thread: ut, utb (stepped into a blocking lock acquisition), utw (arrival after the block)
+UT = ("ut", "utb", "utw")
+
+
+def snapshot_streams(tr, o):
+    """all streams the matched items of the observation are consistent with"""
+    return [s for s, items in tr.items.items() if all(idx < len(items) and str(items[idx]) == g for (_, idx), g in zip(o["m"], o["d"]))]
 
 
 def snapshot_stream(tr, o):
@@ -34,8 +46,14 @@ def c06(line, obs, sc, ln):
         idxs = [i for _, i in o["m"]]
         if o["u"]:
             out.append(("uninit_read", "the worker / snapshot read %d item(s) through get_unchecked before they were initialised (e.g. the sort's tie-break on an in-flight item): %s" % (o["u"], ob)))
+        if PLACEHOLDER in idxs:
+            out.append(("placeholder", "the snapshot's matches contain %d placeholder entries (idx == u32::MAX, the worker's marker for a non-matching item; reading such a match panics) - the sort did not move them behind the real matches before the truncation: %s" % (idxs.count(PLACEHOLDER), ob)))
+            continue
         if len(set(idxs)) != len(idxs):
             out.append(("duplicate", "an item appears twice in the snapshot: %s" % ob))
+        if "NONE" in o["d"]:
+            out.append(("unreadable", "matched items could not all be read (get_matched_item returned None): %s" % ob))
+            continue
         if len(o["d"]) != len(o["m"]):
             out.append(("unreadable", "matched items could not all be read: %s" % ob))
             continue
@@ -83,11 +101,30 @@ def c12(line, obs, sc, ln):
     # time out in between.  win = {clear, ref, spawn, unlocked, r}; ref None = keep with unknown reference
     # (then all observations inside the window must equal the first of them)
     win = None
+    # index based access (Snapshot::get_item): from a restart(true) on the snapshot must not hand out any item of a
+    # stream older than the one that restart created.  floor = (stream created by the latest restart(true), its event)
+    floor = None
+    kept = None
     for k, ev, ob, tr in walk(line, obs):
         p = ev.split(" ")
+        if p[0] == "restart" and p[1] == "1":
+            floor = (tr.stream, k)
+        if ob.startswith("O ") and floor is not None:
+            g = ncommon.parse_obs(ob)["g"]
+
+            def fits(s_):
+                its, pub = tr.items.get(s_, []), tr.published.get(s_, set())
+                return all(v is None or (i_ < len(its) and str(its[i_]) == v and i_ in pub) for i_, v in enumerate(g))
+            if any(v is not None for v in g) and not any(fits(s_) for s_ in range(floor[0], tr.stream + 1)):
+                i_, v = next((i_, v) for i_, v in enumerate(g) if v is not None and not any(
+                    i_ < len(tr.items.get(s_, [])) and str(tr.items[s_][i_]) == v and i_ in tr.published.get(s_, set()) for s_ in range(floor[0], tr.stream + 1)))
+                olds = [s_ for s_ in range(0, floor[0]) if i_ < len(tr.items.get(s_, [])) and str(tr.items[s_][i_]) == v]
+                out.append(("get_item", "after restart(true) (event %d, which created stream %d) Snapshot::get_item(%d) returns the item with data %s, which is not item %d of the new stream (nor of a later one)%s: "
+                            "index based access to the cleared snapshot reaches items injected before the restart (get_item results: %s): %s" % (
+                                floor[1], floor[0], i_, v, i_, (" but item %d of the OLD stream %d" % (i_, olds[-1])) if olds else "", ",".join("-" if x is None else x for x in g), ob)))
         if p[0] == "restart":
             if p[1] == "1" and last is not None:
-                last = {"p": last["p"], "c": 0, "m": [], "d": [], "inj": 0, "n": 0}
+                last = {"p": last["p"], "c": 0, "m": [], "d": [], "inj": 0, "n": 0, "g": []}
             after_restart = (p[1] == "1", last)
             if p[1] == "1":
                 ref = last if last is not None else {"p": win["ref"]["p"] if win and win["ref"] else None, "c": 0, "m": []}
@@ -96,10 +133,11 @@ def c12(line, obs, sc, ln):
             else:
                 ref = last
             win = {"clear": p[1] == "1", "ref": ref, "spawn": False, "unlocked": False, "r": k}
+            kept = win      # survives the window: what a snapshot that still consists of OLD items has to look like
         if p[0] in ("tick",):
             after_restart = None if after_restart is None else after_restart
         if win is not None:
-            if p[0] == "ut" and ob == "Ybefore_spawn":
+            if p[0] in UT and ob == "Ybefore_spawn":
                 win["spawn"] = True
             elif p[0] == "run" and ob.startswith("Yunlocked") and win["spawn"]:
                 win["unlocked"] = True
@@ -130,8 +168,21 @@ def c12(line, obs, sc, ln):
                     else:
                         out.append(("keep", "after restart(false) (event %d) the snapshot changed although no run over the new stream can have been picked up (%s)%s: at the restart %s now %s" % (
                             win["r"], why, old, {x: ref[x] for x in ("p", "c", "m")}, ob)))
+            # whatever ticks and runs happened since the restart: a snapshot that consists of items of an OLD stream is
+            # either impossible (restart(true)) or the very snapshot the restart found (restart(false)) - a run over
+            # the old stream (old items, late pushes through old injectors) must never be picked up again
+            if kept is not None and win is None and o["m"] and s is not None:
+                ss = snapshot_streams(tr, o)
+                if ss and all(x < tr.stream for x in ss):
+                    ref = kept["ref"]
+                    if kept["clear"]:
+                        out.append(("old_stream", "after restart(true) (event %d) a later snapshot consists of items of the OLD stream %d (current stream %d): the worker is still matching the stream the restart disconnected: %s" % (
+                            kept["r"], ss[-1], tr.stream, ob)))
+                    elif ref is not None and (o["c"], o["m"]) != (ref["c"], ref["m"]):
+                        out.append(("old_stream", "after restart(false) (event %d) a later snapshot consists of items of the OLD stream %d (current stream %d) and is not the snapshot the restart found (%s): a run over the disconnected stream was picked up, "
+                                    "items injected before the restart / through old injectors show up and the new stream's items do not: %s" % (kept["r"], ss[-1], tr.stream, {x: ref[x] for x in ("c", "m")}, ob)))
             last = o
-        if p[0] == "ut" and ob.startswith("T") and len(ob) == 3:
+        if p[0] in UT and ob.startswith("T") and len(ob) == 3:
             after_restart = None
             last = None
             if win is not None and win["unlocked"]:
@@ -166,7 +217,7 @@ def c19(line, obs, sc, ln):
             pub_at_begin = len(tr.published.get(tr.stream, set()))
             pat_at_begin = tr.pattern
             snap_before = last
-        if p[0] == "ut" and ob.startswith("T") and len(ob) == 3:
+        if p[0] in UT and ob.startswith("T") and len(ob) == 3:
             pending = (ob[1] == "1", ob[2] == "1", pub_at_begin, pat_at_begin, snap_before)
             last = None
         if ob.startswith("O "):
@@ -215,7 +266,7 @@ def c07(line, obs, sc, ln):
             quiet = None
         if p0 in ("edit", "restart"):
             quiet = None
-        if ev.startswith("ut") and ob.startswith("T") and len(ob) == 3:
+        if p0 in UT and ob.startswith("T") and len(ob) == 3:
             last_tick = ob
             quiet = begin if (ob[2] == "0" and begin is not None and begin[2]) else None
         if ob.startswith("O "):
@@ -268,12 +319,12 @@ def c13(line, obs, sc, ln, mobs=None):
     evs = line.split(";")
     n = min(len(evs), len(obs))
     for k in range(n):
-        if not (evs[k] == "ut" and len(obs[k]) == 3 and obs[k][0] == "T" and obs[k][2] == "1"):
+        if not (evs[k] in UT and len(obs[k]) == 3 and obs[k][0] == "T" and obs[k][2] == "1"):
             continue
         b = max(j for j in range(k + 1) if evs[j].startswith("tick"))
         # the run this tick refers to: the one it spawned last, or the one holding the lock when its try-lock failed
-        spawn = [j for j in range(b, k + 1) if evs[j] == "ut" and obs[j] == "Ybefore_spawn"]
-        failed = [j for j in range(b, k + 1) if evs[j] == "ut" and obs[j] == "Ytry_failed"]
+        spawn = [j for j in range(b, k + 1) if evs[j] in UT and obs[j] == "Ybefore_spawn"]
+        failed = [j for j in range(b, k + 1) if evs[j] in UT and obs[j] == "Ytry_failed"]
         ref = max(spawn + failed) if spawn + failed else b
         nxt = next((j for j in range(k + 1, n) if evs[j].startswith("tick") or evs[j].startswith("restart")), n)
         u = next((j for j in range(ref, n) if evs[j] == "run" and obs[j].startswith("Yunlocked")), None)
